@@ -9,7 +9,7 @@ PROP = {
             "entries, or is rank-deficient (exact integer determinant 0), or has Frobenius condition number >= 100 (bit-pattern cases: some entry is zero/subnormal/inf/NaN/tie/huge); "
             "distinct = distinct hash of (type, backend, operand words), enumerations count their own indices.",
     "builds": {
-        "quick": [B("stable"), B("nightly", 0.25, False)],
+        "quick": [B("stable"), B("fma", 0.25), B("nightly", 0.25, False)],
         "thorough": [B("stable"), B("fma", 0.5), B("nightly", 0.5, False)],
     },
     "volume": {"quick": 4},
